@@ -129,7 +129,7 @@ Proof.
 Qed.
 
 (* ---- C06_excess_flow_safe / C06_excess_pos_dec_sound: all hypotheses about the decomposition D on the flow 5 splitting 3 / 2 *)
-From FP Require Safety SafetyProofs3.
+From FP Require Safety SafetyReach SafetyProofs1 SafetyProofs3.
 Definition xfl : list ((N * N) * Z) := [((0,1)%N,5%Z);((1,2)%N,3%Z);((1,3)%N,2%Z);((2,4)%N,3%Z);((3,4)%N,2%Z);((4,5)%N,5%Z)].
 Definition xD : list (list N * Z) := [([0;1;2;4;5]%N, 3%Z); ([0;1;3;4;5]%N, 2%Z)].
 Lemma excess_hypotheses :
@@ -159,4 +159,157 @@ Proof.
   cbn zeta. split; [|split; [reflexivity|split; [|split; [lia|vm_compute; reflexivity]]]].
   - intros i Hi. do 4 (destruct i as [|i]; [eexists; split; reflexivity|]). lia.
   - intros k Hk. destruct k as [|[|k]]; [reflexivity|reflexivity|lia].
+Qed.
+
+(* ---- C06_inexact_excess_flow_safe: all hypotheses (interval bounds around the flow 5 -> 3 / 2 -> 5, the decomposition xD) *)
+Definition xlb (e : N * N) : Z := (Safety.flow_of xfl e - 1)%Z.
+Definition xub (e : N * N) : Z := (Safety.flow_of xfl e + 1)%Z.
+Lemma inexact_hypotheses :
+  (forall e, (xlb e <= Safety.flow_of xfl e)%Z) /\ (forall e, (Safety.flow_of xfl e <= xub e)%Z) /\
+  (forall pw, In pw xD -> (0 <= snd pw)%Z) /\
+  (forall pw, In pw xD -> incl (Safety.pairs (fst pw)) (map fst xfl)) /\
+  (forall pw x, In pw xD -> ~ In (last (fst pw) 0%N, x) (map fst xfl)) /\
+  (forall e, In e (map fst xfl) -> SafetyProofs3.Wt xD (SafetyProofs3.hasb e) = Safety.flow_of xfl e) /\
+  incl (Safety.pairs [0;1;2;4;5]%N) (map fst xfl) /\
+  (0 < Safety.inexact_excess (map fst xfl) xlb xub [0;1;2;4;5]%N)%Z.
+Proof.
+  destruct excess_hypotheses as (_ & H2 & H3 & H4 & H5 & _).
+  split; [intros e; unfold xlb; lia|]. split; [intros e; unfold xub; lia|]. split; [exact H2|]. split; [exact H3|]. split; [exact H4|].
+  split; [exact H5|]. split; [intros e He; cbn in He |- *; tauto|vm_compute; reflexivity].
+Qed.
+
+(* ---- C06_fix_certified_sound: one concrete (G, X, ss, C): the figure-eight graph with a by-pass, two trusted items, their two safe
+   sequences (pairwise incompatible: both leave the source), and a walk cover of the items *)
+Definition fGc : list (N * N) := [(0,1);(1,2);(2,1);(2,3);(3,2);(2,4);(4,9);(0,5);(5,9)]%N.
+Definition fX : list (list (N * N)) := [[(3,2)]; [(0,5)]]%N.
+Definition fss : list (list (N * N)) := [[(0,1);(1,2);(2,3);(3,2);(2,4);(4,9)]; [(0,5);(5,9)]]%N.
+Definition fC : list (list (N * N)) := [[(0,1);(1,2);(2,3);(3,2);(2,1);(1,2);(2,4);(4,9)]; [(0,5);(5,9)]]%N.
+Lemma fix_certified_hypotheses :
+  Safety.pairwise_incompat_dec fGc 0%N 9%N fss = true /\ forallb (Safety.safe_dec fGc 0%N 9%N fX) fss = true /\
+  Safety.walk_cover fGc 0%N 9%N fX fC.
+Proof.
+  split; [vm_compute; reflexivity|]. split; [vm_compute; reflexivity|]. split.
+  - intros w [<-|[<-|[]]]; (split; [repeat constructor|intros e He; cbn in He |- *; tauto]).
+  - intros c [<-|[<-|[]]].
+    + eexists. split; [left; reflexivity|]. apply SafetyReach.greedy0. vm_compute. reflexivity.
+    + eexists. split; [right; left; reflexivity|]. apply SafetyReach.greedy0. vm_compute. reflexivity.
+Qed.
+
+(* ---- C09_minpathcover_end_to_end / C09_minpathcover_returns_the_width in EDGE mode: the solver-specification hypotheses on the diamond
+   1 -> {2,3} -> 4 (source 0, sink 5): the k-cover model is feasible exactly for k >= 2 *)
+From FP Require Import PathCoverComplete EndToEnd1 EndToEnd2 EndToEndCover EndToEndExample Dilworth.
+Lemma pairs_out_unique : forall (l : list N) a b c, NoDup l -> In (a, b) (EulerProofs1.pairs l) -> In (a, c) (EulerProofs1.pairs l) -> b = c.
+Proof.
+  induction l as [|x l IH]; intros a b c ND H1 H2; [destruct H1|]. destruct l as [|y r]; [destruct H1|].
+  change (EulerProofs1.pairs (x :: y :: r)) with ((x, y) :: EulerProofs1.pairs (y :: r)) in *. inversion ND as [|? ? Hx ND']; subst.
+  assert (F : forall d, In (x, d) (EulerProofs1.pairs (y :: r)) -> False).
+  { intros d Hd. apply Hx. apply in_removelast. apply (in_pairs_fst (x, d) (y :: r) Hd). }
+  destruct H1 as [E1|H1], H2 as [E2|H2].
+  - congruence.
+  - injection E1 as <- <-. exfalso. exact (F c H2).
+  - injection E2 as <- <-. exfalso. exact (F b H1).
+  - exact (IH a b c ND' H1 H2).
+Qed.
+
+Definition dP (i : N) : list N := if (i =? 0)%N then [0; 1; 2; 4; 5]%N else [0; 1; 3; 4; 5]%N.
+Lemma edge_cover_solver_hypotheses :
+  let feasible := fun k => (2 <=? k)%nat in
+  let sts := map (fun k => Search.mkraw (if feasible k then Search.Optimal else Search.Infeasible) false) (seq 1 4) in
+  (forall k, feasible k = true <-> exists a, sat a (encode_kpc (cover_inst xV xE 0%N 5%N k) (synth xV xE 0%N 5%N))) /\
+  (forall i, (i < Datatypes.S (length xE) - 1)%nat -> exists x, nth_error sts i = Some x /\
+             Search.status_of x = if feasible (1 + i)%nat then Search.Optimal else Search.Infeasible) /\
+  (forall k, (k < 1)%nat -> feasible k = false) /\
+  Search.so_res (Search.mpc_solve true 1 (Datatypes.S (length xE)) sts) = Search.Solved 2.
+Proof.
+  cbn zeta. destruct diamond_premises as (Hs & Ht & Hst & HE & NDV & NDE & Htopo).
+  split; [|split; [|split; [|vm_compute; reflexivity]]].
+  - intros k.
+    rewrite (kpc_feasible_iff (cover_inst xV xE 0%N 5%N k) _ (st_rank 0%N 5%N [1; 2; 3; 4]%N) (Datatypes.S (Datatypes.S 4))
+               (st_of_wf xV xE 0%N 5%N Hs Ht Hst HE NDV NDE) eq_refl
+               (st_rank_increasing xV xE 0%N 5%N Hs Ht Hst HE _ Htopo) (fun v => st_rank_le 0%N 5%N Hst _ v)
+               (fun c e (Hc : In c []) => match Hc with end)).
+    rewrite Nat.leb_le. split.
+    + intros Hk. exists dP. split; [split|intros n c Hn; destruct n; discriminate].
+      * intros i _. unfold dP. destruct (i =? 0)%N; (split; [reflexivity|]); (split; [reflexivity|]);
+          (split; [repeat constructor; cbn; intuition discriminate|]); intros e He; vm_compute in He; vm_compute; tauto.
+      * intros e He Hig. vm_compute in He.
+        destruct He as [<-|[<-|[<-|[<-|He]]]].
+        -- exists 0%N. split; [apply (proj2 (in_layers k _)); exists 0%nat; split; [lia|reflexivity]|vm_compute; reflexivity].
+        -- exists 1%N. split; [apply (proj2 (in_layers k _)); exists 1%nat; split; [lia|reflexivity]|vm_compute; reflexivity].
+        -- exists 0%N. split; [apply (proj2 (in_layers k _)); exists 0%nat; split; [lia|reflexivity]|vm_compute; reflexivity].
+        -- exists 1%N. split; [apply (proj2 (in_layers k _)); exists 1%nat; split; [lia|reflexivity]|vm_compute; reflexivity].
+        -- repeat (destruct He as [<-|He]; [vm_compute in Hig; discriminate Hig|]). destruct He.
+    + intros (P & (HP & Hcov) & _). destruct k as [|[|k]]; [exfalso|exfalso|lia].
+      * destruct (Hcov (1, 2)%N ltac:(vm_compute; tauto) ltac:(vm_compute; reflexivity)) as (i & Hi & _). destruct Hi.
+      * destruct (Hcov (1, 2)%N ltac:(vm_compute; tauto) ltac:(vm_compute; reflexivity)) as (i & Hi & M1).
+        destruct (Hcov (1, 3)%N ltac:(vm_compute; tauto) ltac:(vm_compute; reflexivity)) as (j & Hj & M2).
+        cbn in Hi, Hj. destruct Hi as [<-|[]]. destruct Hj as [<-|[]].
+        apply mem_edge_In in M1, M2. destruct (HP 0%N ltac:(left; reflexivity)) as (_ & _ & ND & _).
+        pose proof (pairs_out_unique _ _ _ _ ND M1 M2) as X. discriminate X.
+  - intros i Hi. change (length xE) with 4%nat in Hi. do 4 (destruct i as [|i]; [eexists; split; reflexivity|]). lia.
+  - intros k Hk. destruct k; [reflexivity|lia].
+Qed.
+
+(* ---- C04_returns_minimum_within_caps: ALL hypotheses (solver specification included) on the self-loop graph with flow 2: an
+   admissible decomposition into j walks exists exactly for j >= 1 (one walk of weight 1 going round twice, j - 1 walks of weight 0) *)
+From FP Require Import WalkEncRows WalkEncIff WalkSearch WalkExamples WalkMinimum.
+Definition loopk (j : nat) : kfdc_inst :=
+  {| c_graph := loopG; c_k := j; c_flow := [((0, 0)%N, 2%Q)]; c_ignore := []; c_int := false;
+     c_cons := []; c_cov := 1%Q; c_opts := no_opts; c_safe_lists := []; c_fix := []; c_given := None;
+     c_scale_free := false |}.
+Definition lkP (i : N) : list node := if (i =? 0)%N then [1; 0; 0; 0; 2]%N else [1; 0; 2]%N.
+Definition lkw (i : N) : Q := if (i =? 0)%N then 1%Q else 0%Q.
+
+Lemma loopk_adm j : 1 <= j -> admissible (loopk j) lkP lkw.
+Proof.
+  intros Hj.
+  assert (Hq : (1 <= qnat j)%Q).
+  { unfold qnat. change 1%Q with (inject_Z 1). rewrite <- Zle_Qle. lia. }
+  assert (Hwm : (kfdc_wmax (loopk j) == qnat j * 2)%Q).
+  { unfold kfdc_wmax. change (c_k (loopk j)) with j. apply Qmult_comp; [reflexivity|]. vm_compute. reflexivity. }
+  assert (HD : walk_decomposition (loopk j) lkP lkw).
+  { split; [|split].
+    - intros i _. unfold lkP. destruct (i =? 0)%N; (split; [reflexivity|]); (split; [reflexivity|]); intros e He; cbn in He; cbn; tauto.
+    - intros i _. unfold lkw. destruct (i =? 0)%N; (split; [lra|discriminate]).
+    - intros e He. vm_compute in He. destruct He as [<-|[]]. change (flow_of (loopk j) (0, 0)%N) with 2%Q.
+      change (c_k (loopk j)) with j. destruct j as [|n]; [lia|].
+      change (layers (Datatypes.S n)) with (0%N :: map N.of_nat (seq 1 n)). cbn [sumq].
+      rewrite (MefBound.sumq_zero _ (map N.of_nat (seq 1 n))).
+      + vm_compute. reflexivity.
+      + intros x Hx. apply in_map_iff in Hx. destruct Hx as (m & <- & Hm). apply in_seq in Hm. unfold lkw.
+        destruct (N.eqb_spec (N.of_nat m) 0); [lia|]. ring. }
+  split; [exact HD|]. split; [|split; [|split]].
+  - apply (within_caps_simple (loopk j) lkP lkw eq_refl); [rewrite Hwm; lra|exact HD| |].
+    + intros i _. rewrite Hwm. unfold lkw. destruct (i =? 0)%N; lra.
+    + intros i e _ He. cbn in He. unfold mult, lkP. destruct He as [<-|[<-|[<-|[]]]]; destruct (i =? 0)%N; vm_compute; discriminate.
+  - split; [intros e i H|intros e i m H]; vm_compute in H; destruct H.
+  - intros n c H. cbn in H. destruct n; discriminate.
+  - intros ws n w H. discriminate H.
+Qed.
+Lemma loopk_0 : ~ exists P wt, admissible (loopk 0) P wt.
+Proof.
+  intros (P & wt & (_ & _ & Hf) & _). specialize (Hf (0, 0)%N ltac:(vm_compute; tauto)). vm_compute in Hf. discriminate Hf.
+Qed.
+Lemma loop_flow_search_hypotheses :
+  (forall j, c_k (loopk j) = j /\ wf_stg (c_graph (loopk j)) /\ o_allow_empty (c_opts (loopk j)) = false /\ inputs_ok (loopk j)) /\
+  (forall j, cover_out j = Optimal <-> exists a, sat a (encode_kfdc (loopk j))) /\
+  (forall j, cover_out j = Infeasible <-> ~ exists a, sat a (encode_kfdc (loopk j))) /\
+  (forall j : nat, (fun _ : nat => false) j = false) /\
+  (forall g, @None nat = Some g -> exists P wt, admissible (loopk g) P wt) /\
+  (exists P wt, admissible (loopk 1) P wt) /\
+  (forall j, j < 1 -> ~ exists P wt, admissible (loopk j) P wt) /\ 0 <= 1 <= 3 /\
+  mfdc_solve cover_out (fun _ => false) None 0 3 = Solved 1.
+Proof.
+  assert (Hinst : forall j, c_k (loopk j) = j /\ wf_stg (c_graph (loopk j)) /\ o_allow_empty (c_opts (loopk j)) = false /\ inputs_ok (loopk j)).
+  { intros j. split; [reflexivity|]. split; [exact loopG_wf|]. split; [reflexivity|].
+    split; [intros c e Hc; cbn in Hc; destruct Hc|intros w e Hw; cbn in Hw; destruct Hw]. }
+  assert (Iff : forall j, (exists a, sat a (encode_kfdc (loopk j))) <-> 1 <= j).
+  { intros j. destruct (Hinst j) as (_ & WF & Hae & Hin). rewrite (kfdc_feasible_iff_within_caps _ WF Hae Hin). split.
+    - intros HP. destruct j; [exfalso; exact (loopk_0 HP)|lia].
+    - intros Hj. exists lkP, lkw. exact (loopk_adm j Hj). }
+  split; [exact Hinst|]. split; [|split; [|split; [reflexivity|split; [discriminate|split; [|split; [|split; [lia|reflexivity]]]]]]].
+  - intros j. rewrite Iff. unfold cover_out. destruct j; cbn; split; intros H; try discriminate; try reflexivity; lia.
+  - intros j. rewrite Iff. unfold cover_out. destruct j; cbn; split; intros H; try discriminate; try reflexivity; lia.
+  - exists lkP, lkw. exact (loopk_adm 1 (le_n _)).
+  - intros j Hj. assert (j = 0) by lia. subst. exact loopk_0.
 Qed.
